@@ -102,6 +102,14 @@ func c10gen(g *gen, tier string, w *bufio.Writer) {
 	for i := 0; i < n; i++ {
 		o := dataOpts{v6: true, maxZone: 2, locs: true, maps: true}
 		df := g.genDataFile(o)
+		if i%5 == 4 && len(df.locs) > 0 {
+			// classic subnet lines without a map id: they land in the default map, which is also the
+			// map consulted for a name that has no map at all (scope 0 and resolver fallback apply)
+			for k, n := 0, 1+g.intn(3); k < n; k++ {
+				df.lines = append(df.lines, "%"+g.pick(df.locs)+","+g.pick([]string{"10.0.0.0/8", "10.1.0.0/16", "192.168.0.0/15", "9.9.9.0/24", "2001:db8::/32"}))
+			}
+			g.shuffle(df.lines)
+		}
 		qs := g.genQueries(df, 40, true)
 		for _, q := range qs {
 			if g.chance(1, 8) {
@@ -167,6 +175,16 @@ func c13gen(g *gen, tier string, w *bufio.Writer) {
 				q.name = strings.Repeat("a.", 60+g.intn(60))
 			case 2:
 				q.name = strings.Repeat("x", 63) + "." + strings.Repeat("y", 63) + ".ex.com."
+				if g.bool() {
+					// the longest names: 253, 254 and 255 bytes on the wire (3 x 63-byte labels + one more)
+					last := []int{59, 60, 61}[g.intn(3)]
+					q.name = strings.Repeat("x", 63) + "." + strings.Repeat("y", 63) + "." + strings.Repeat("z", 63) + "." +
+						strings.Repeat("w", last) + "."
+					if g.bool() { // ... and below a served zone: 63+63+63+(last-7) + ex.com
+						q.name = strings.Repeat("x", 63) + "." + strings.Repeat("y", 63) + "." + strings.Repeat("z", 63) + "." +
+							strings.Repeat("w", last-7) + ".ex.com."
+					}
+				}
 			case 3:
 				q.name = "com."
 			default:
@@ -210,6 +228,16 @@ func c04gen(g *gen, tier string, w *bufio.Writer) {
 		L, F := "aa", "ff"
 		// make sure the client maps to L: resolver map with one subnet for L
 		df.lines = append(df.lines, "M"+df.zones[0].name+",mL", "M*."+df.zones[0].name+",mL", "%"+L+",10.0.0.0/8,mL")
+		if i%3 == 0 {
+			// the client's own location also has records at a zone apex (its own SOA, or its own NS),
+			// next to the untagged ones: the client must see both kinds together
+			z0 := df.zones[g.intn(len(df.zones))].name
+			if g.bool() {
+				df.lines = append(df.lines, "Z"+z0+",nsl."+z0+",hm."+z0+",,,,,,60,,"+L)
+			} else {
+				df.lines = append(df.lines, "&"+z0+","+g.ip4()+",nsl."+z0+",60,,"+L)
+			}
+		}
 		edited := append([]string{}, df.lines...)
 		ne := 1 + g.intn(5)
 		for e := 0; e < ne; e++ {
